@@ -107,7 +107,7 @@ Definition min_indentation (s : str) : nat :=
 Definition normalize_docstring (s : str) : str :=
   let s1 := expandtabs s in
   let m := min_indentation s1 in
-  if Nat.ltb 0 m then join_nl (map (skipn m) (splitlines s1)) else s1.
+  if Nat.ltb 0 m then join_nl (map (skipn m) (srclines s1)) else s1.
 
 (* ---------- labels ---------- *)
 Inductive label := TEXT | DSRC | DCNT | WANT.
@@ -216,7 +216,7 @@ Fixpoint label_go (bal : list str -> res bool) (lines : list str) (st : lstate)
   end.
 
 Definition label_lines (bal : list str -> res bool) (s : str) : res (list (label * str)) :=
-  label_go bal (splitlines s) (mkL TEXT O None).
+  label_go bal (srclines s) (mkL TEXT O None).
 
 (* ---------- _group_labeled_lines ---------- *)
 
